@@ -145,6 +145,13 @@ def replays(argv: list[str]) -> int:
             path = os.path.join(VERIF, rel)
             cmd = PROP_CMD[ent["property"]]
             rc_now, text_now = _run_check(cmd, ["--replay", path], {})
+            if ent.get("status") == "known":  # not repaired: the recorded plan must still fail the recorded way
+                good = rc_now == 1 and '"same_signature": true' in text_now
+                bad += not good
+                print(f"{os.path.basename(rel)}: known finding (not repaired): "
+                      f"{'still reproduces with the recorded signature' if good else 'DOES NOT REPRODUCE ANY MORE'}  "
+                      f"[{'ok' if good else 'BAD'}]", flush=True)
+                continue
             ok_now = rc_now == 0 and "NOT-REPRODUCED" in text_now
             ok_before = None
             if commit:
